@@ -8,9 +8,11 @@ package c06
 import (
 	"bytes"
 	"context"
+	"encoding/json"
 	"fmt"
 	"io"
 	"log"
+	"os"
 	"path/filepath"
 	"runtime"
 	"sort"
@@ -402,6 +404,16 @@ func (w *world) doOp(op cOp) {
 		}
 		w.emit(fmt.Sprintf("(%s, OFRes %s, RL %s)", now, CoqList(op.Items, c.coqItem), w.itemsOut(ids, blks, op.Items)))
 	case "fprop", "hookprop":
+		if op.Kind == "hookprop" {
+			// the metadata store keeps proposals of the two known upkeep types only
+			var known []cItem
+			for _, it := range op.Items {
+				if c.Ws[it.W].Type <= 1 {
+					known = append(known, it)
+				}
+			}
+			op.Items = known
+		}
 		ps := make([]common.CoordinatedBlockProposal, len(op.Items))
 		for i, it := range op.Items {
 			ps[i] = common.CoordinatedBlockProposal{UpkeepID: c.upkeepID(it.W), Trigger: c.trigger(it.W, it.Blk), WorkID: c.workID(it.W)}
@@ -719,8 +731,8 @@ func randomCase(r *Rng, emphasizeFilters bool) cCase {
 	for len(c.Ops) < n {
 		w := r.Intn(nw)
 		k := r.Intn(100)
-		if emphasizeFilters {
-			k = (k * 3 / 2) % 100
+		if emphasizeFilters && r.Bool() {
+			k = 56 + r.Intn(29) // one of the filter / hook operations
 		}
 		switch {
 		case k < 18:
@@ -828,7 +840,7 @@ func genCases(t *testing.T, prop string, emphasizeFilters bool) []cCase {
 		seed += 7777
 	}
 	r := NewRng(seed)
-	n := EnvInt("VERIF_N", 120)
+	n := EnvInt("VERIF_N", 400)
 	for i := 0; i < n; i++ {
 		cases = append(cases, randomCase(r, emphasizeFilters))
 	}
@@ -867,15 +879,36 @@ func writeHistories(t *testing.T, prop string, cases []cCase, bad, nontriv strin
 	})
 }
 
+// replayIsRace tells whether the replay file holds race cases (written by the driver from cases_race.json).
+func replayIsRace() bool {
+	rf := ReplayFile()
+	if rf == "" {
+		return false
+	}
+	b, err := os.ReadFile(rf)
+	if err != nil {
+		return false
+	}
+	var hdr struct {
+		CaseFile string `json:"case_file"`
+	}
+	_ = json.Unmarshal(b, &hdr)
+	return hdr.CaseFile == "cases_race"
+}
+
 func TestC06(t *testing.T) {
-	cases := genCases(t, "C06", false)
-	writeHistories(t, "C06", cases, "cc_bad06", "cc_nontriv")
-	if ReplayFile() != "" {
-		return
+	races := raceFamilies()
+	if replayIsRace() {
+		races = LoadReplayCases[raceCase](t, ReplayFile())
+	} else {
+		cases := genCases(t, "C06", false)
+		writeHistories(t, "C06", cases, "cc_bad06", "cc_nontriv")
+		if ReplayFile() != "" {
+			return
+		}
 	}
 	// racing poller (finding 11): deterministic interleaving through the coordinator's log sink
 	dir := OutDir(t, "C06")
-	races := raceFamilies()
 	cf := NewCaseFile("C06", "Model.Coordinator")
 	for i := range races {
 		runRace(t, &races[i])
